@@ -197,7 +197,8 @@ class Scale(EnvironmentFilter):
 
     def _get_shift_and_scale(self,values) -> Tuple[float,float]:
         try:
-            values = [v for v in values if v is not None]
+            #nan != nan so the second test drops nan (a nan in the window would otherwise poison or mis-order the statistics)
+            values = [v for v in values if v is not None and v == v]
             shift = self._shift_value(values)
             scale = self._scale_value(values,shift)
 
